@@ -51,6 +51,15 @@ pub trait DSet: Sized {
                 0 <= i <= self.sdim() && 1 <= d <= self.ssize() && 1 <= self.sop(i, d).unwrap() <= self.ssize()
                 && self.sop(i, self.sop(i, d).unwrap() as int) == Some(d as usize);
 
+    // C02 "m is constant on (i,j)-orbits", adjacent indices: the second law every implementation proves from its invariant
+    proof fn lemma_m_orbit(&self)
+        requires self.wf()
+        ensures
+            forall|i: int, d: int| 0 <= i < self.sdim() && (#[trigger] self.sop(i, d)).is_some() ==>
+                self.sm(i, i + 1, self.sop(i, d).unwrap() as int) == self.sm(i, i + 1, d),
+            forall|i: int, d: int| 0 <= i < self.sdim() && (#[trigger] self.sop(i + 1, d)).is_some() ==>
+                self.sm(i, i + 1, self.sop(i + 1, d).unwrap() as int) == self.sm(i, i + 1, d);
+
     fn size(&self) -> (r: usize) requires self.wf() ensures r == self.ssize();
     fn dim(&self) -> (r: usize) requires self.wf() ensures r == self.sdim();
     // C02 "out-of-range arguments give None rather than a panic": total on usize x usize
@@ -82,39 +91,105 @@ pub trait DSet: Sized {
     }
     //@ end
 
-    // default method no type overrides
-    //@ begin src/dsets.rs :: trait DSet: Sized :: fn orbit_reps_2d | props=C05
-    //@ rw R16 /-> Vec<usize>/-> (result: Vec<usize>)/
-    //@ rw R12 /let mut result = vec!\[\];/let mut result: Vec<usize> = vec![];/
-    //@ rw R10 /for d in 1\.\.=self\.size\(\)$/for d in 1..(self.size()) + 1/
-    #[verifier::exec_allows_no_decreases_clause]
-    fn orbit_reps_2d(&self, i: usize, j: usize) -> (result: Vec<usize>)
-        requires self.wf()
-        // total for every index pair (also out-of-range ones); every representative is a chamber
-        ensures forall|k: int| 0 <= k < result@.len() ==> 1 <= #[trigger] result@[k] <= self.ssize()
-    {
-        proof { self.lemma_wf(); }
-        let mut result: Vec<usize> = vec![];
-        let mut seen = vec![false; self.size() + 1];
+}
 
-        for d in 1..(self.size()) + 1
-            invariant self.wf(), seen@.len() == self.ssize() + 1, self.ssize() < usize::MAX,
-                forall|k: int| 0 <= k < result@.len() ==> 1 <= #[trigger] result@[k] <= self.ssize(),
+// ---- (i,j)-orbits of an abstract D-set, without reference to any enumeration: a function on chambers is an ORBIT FUNCTION
+// when it is constant along the operations i and j (wherever they are defined); two chambers lie on one (i,j)-orbit iff
+// no orbit function separates them (the indicator of an orbit is an orbit function)
+pub open spec fn orbit_fn<T: DSet>(ds: &T, i: int, j: int, f: spec_fn(int) -> int) -> bool {
+    forall|x: int| 1 <= x <= ds.ssize() ==>
+        ((#[trigger] ds.sop(i, x)).is_some() ==> f(ds.sop(i, x).unwrap() as int) == f(x))
+        && ((#[trigger] ds.sop(j, x)).is_some() ==> f(ds.sop(j, x).unwrap() as int) == f(x))
+}
+pub open spec fn same_ij<T: DSet>(ds: &T, i: int, j: int, a: int, b: int) -> bool {
+    forall|f: spec_fn(int) -> int| #[trigger] orbit_fn(ds, i, j, f) ==> f(a) == f(b)
+}
+pub open spec fn has_rep<T: DSet>(ds: &T, i: int, j: int, reps: Seq<usize>, x: int) -> bool {
+    exists|k: int| 0 <= k < reps.len() && #[trigger] same_ij(ds, i, j, reps[k] as int, x)
+}
+
+proof fn lemma_has_rep_push<T: DSet>(ds: &T, i: int, j: int, reps: Seq<usize>, d: usize, x: int)
+    requires has_rep(ds, i, j, reps, x)
+    ensures has_rep(ds, i, j, reps.push(d), x)
+{
+    let k = choose|k: int| 0 <= k < reps.len() && #[trigger] same_ij(ds, i, j, reps[k] as int, x);
+    assert(reps.push(d)[k] == reps[k]);
+    assert(same_ij(ds, i, j, reps.push(d)[k] as int, x));
+}
+
+// one step along operation i or j (or no step, where the operation is undefined) stays on the orbit
+proof fn lemma_same_ij_step<T: DSet>(ds: &T, i: int, j: int, d: int, e: int, e2: usize)
+    requires ds.wf(), 1 <= e <= ds.ssize(), same_ij(ds, i, j, d, e),
+        e2 == e || ds.sop(i, e) == Some(e2) || ds.sop(j, e) == Some(e2),
+    ensures same_ij(ds, i, j, d, e2 as int)
+{
+    assert forall|f: spec_fn(int) -> int| #[trigger] orbit_fn(ds, i, j, f) implies f(d) == f(e2 as int) by {
+        assert(f(d) == f(e));
+        if e2 != e {
+            if ds.sop(i, e) == Some(e2) { assert(ds.sop(i, e).is_some()); } else { assert(ds.sop(j, e).is_some()); }
+        }
+    }
+}
+
+// default method no type overrides; emitted as a free function (R11) because its contract speaks about orbit functions of the
+// abstract D-set, which a method INSIDE the trait declaration may not mention (Verus: cyclic self-reference)
+//@ begin src/dsets.rs :: trait DSet: Sized :: fn orbit_reps_2d | props=C05
+//@ rw R11 /fn orbit_reps_2d\(&self, i: usize, j: usize\)/pub fn orbit_reps_2d<S: DSet>(this: &S, i: usize, j: usize)/
+//@ rw R11 /\bself\b/this/
+//@ rw R16 /-> Vec<usize>/-> (result: Vec<usize>)/
+//@ rw R12 /let mut result = vec!\[\];/let mut result: Vec<usize> = vec![];/
+//@ rw R10 /for d in 1\.\.=this\.size\(\)$/for d in 1..(this.size()) + 1/
+#[verifier::exec_allows_no_decreases_clause]
+    pub fn orbit_reps_2d<S: DSet>(this: &S, i: usize, j: usize) -> (result: Vec<usize>)
+    requires this.wf()
+    // total for every index pair (also out-of-range ones); every representative is a chamber
+    ensures forall|k: int| 0 <= k < result@.len() ==> 1 <= #[trigger] result@[k] <= this.ssize(),
+        // every chamber lies on the (i,j)-orbit of a listed representative
+        forall|x: int| 1 <= x <= this.ssize() ==> #[trigger] has_rep(this, i as int, j as int, result@, x),
+    {
+        proof { this.lemma_wf(); }
+        let mut result: Vec<usize> = vec![];
+        let mut seen = vec![false; this.size() + 1];
+
+        for d in 1..(this.size()) + 1
+            invariant this.wf(), seen@.len() == this.ssize() + 1, this.ssize() < usize::MAX,
+                forall|k: int| 0 <= k < result@.len() ==> 1 <= #[trigger] result@[k] <= this.ssize(),
+                forall|x: int| 1 <= x <= this.ssize() && #[trigger] seen@[x] ==> has_rep(this, i as int, j as int, result@, x),
+                forall|x: int| 1 <= x < d ==> #[trigger] has_rep(this, i as int, j as int, result@, x),
         {
             if !seen[d] {
+                let ghost r0 = result@;
                 result.push(d);
                 seen[d] = true;
+                proof {
+                    assert(result@[r0.len() as int] == d);
+                    assert(same_ij(this, i as int, j as int, d as int, d as int));
+                    assert(has_rep(this, i as int, j as int, result@, d as int));
+                    assert forall|x: int| 1 <= x <= this.ssize() && #[trigger] seen@[x] implies has_rep(this, i as int, j as int, result@, x) by {
+                        if x != d { assert(has_rep(this, i as int, j as int, r0, x)); lemma_has_rep_push(this, i as int, j as int, r0, d, x); }
+                    }
+                    assert forall|x: int| 1 <= x < d + 1 implies #[trigger] has_rep(this, i as int, j as int, result@, x) by {
+                        if x != d { assert(has_rep(this, i as int, j as int, r0, x)); lemma_has_rep_push(this, i as int, j as int, r0, d, x); }
+                    }
+                }
 
                 let mut e = d;
 
                 loop
-                    invariant self.wf(), seen@.len() == self.ssize() + 1, 1 <= e <= self.ssize(), 1 <= d <= self.ssize(),
-                        forall|k: int| 0 <= k < result@.len() ==> 1 <= #[trigger] result@[k] <= self.ssize(),
+                    invariant this.wf(), seen@.len() == this.ssize() + 1, 1 <= e <= this.ssize(), 1 <= d <= this.ssize(),
+                        forall|k: int| 0 <= k < result@.len() ==> 1 <= #[trigger] result@[k] <= this.ssize(),
+                        forall|x: int| 1 <= x <= this.ssize() && #[trigger] seen@[x] ==> has_rep(this, i as int, j as int, result@, x),
+                        result@.len() > 0, result@[result@.len() - 1] == d,
+                        forall|x: int| 1 <= x < d + 1 ==> #[trigger] has_rep(this, i as int, j as int, result@, x),
+                        same_ij(this, i as int, j as int, d as int, e as int),
                 {
-                    proof { self.lemma_wf(); }
-                    let ei = self.op(i, e).unwrap_or(e);
+                    proof { this.lemma_wf(); }
+                    let ghost e0 = e;
+                    let ei = this.op(i, e).unwrap_or(e);
+                    proof { lemma_same_ij_step(this, i as int, j as int, d as int, e0 as int, ei); }
                     seen[ei] = true;
-                    e = self.op(j, ei).unwrap_or(ei);
+                    e = this.op(j, ei).unwrap_or(ei);
+                    proof { lemma_same_ij_step(this, i as int, j as int, d as int, ei as int, e); }
                     seen[e] = true;
 
                     if e == d {
@@ -126,8 +201,7 @@ pub trait DSet: Sized {
 
         result
     }
-    //@ end
-}
+//@ end
 
 // the default `m` of the trait (plain D-sets carry no degrees)
 pub open spec fn default_m(dim: int, size: int, i: int, j: int, d: int) -> Option<usize> {
@@ -394,6 +468,7 @@ impl DSet for PartialDSet {
     open spec fn sm(&self, i: int, j: int, d: int) -> Option<usize> { default_m(self.dim as int, self.size as int, i, j, d) }
 
     proof fn lemma_wf(&self) { lemma_tbl_op(self.op@, self.size as int, self.dim as int); }
+    proof fn lemma_m_orbit(&self) { self.lemma_wf(); }
 
     //@ begin src/dsets.rs :: impl DSet for PartialDSet :: fn size | props=C01,C02,C04,C05
     fn size(&self) -> usize
@@ -557,6 +632,7 @@ impl DSet for SimpleDSet {
     open spec fn sm(&self, i: int, j: int, d: int) -> Option<usize> { default_m(self.dim as int, self.size as int, i, j, d) }
 
     proof fn lemma_wf(&self) { self.lemma_inv_tbl(); lemma_tbl_op(self.op@, self.size as int, self.dim as int); }
+    proof fn lemma_m_orbit(&self) { self.lemma_wf(); }
 
     //@ begin src/dsets.rs :: impl DSet for SimpleDSet :: fn size | props=C01,C02,C04,C05
     fn size(&self) -> usize
@@ -1225,6 +1301,184 @@ proof fn lemma_iter_cong(a: &SimpleDSet, b: &SimpleDSet, j: int, x: int, k: nat)
     }
 }
 
+// ---------------------------------------------------------------------------------------------------------
+// orbit indices SEPARATE orbits: two chambers share an index for the pair (i,i+1) only if they lie on one (i,i+1)-orbit,
+// and indices used for different pairs never coincide (everything that writes degrees through set_v relies on it:
+// C05 "preserves every degree", C04 degrees of the minimal image)
+// ---------------------------------------------------------------------------------------------------------
+pub open spec fn co_orbit(ds: &SimpleDSet, i: int, x: int, y: int) -> bool {
+    exists|d: int| 1 <= d <= ds.size && #[trigger] in_orbit(ds, i, d, x) && in_orbit(ds, i, d, y)
+}
+
+#[verifier::opaque]
+pub open spec fn sep_seen(ds: &SimpleDSet, i: int, seen: Seq<bool>, oi: Seq<usize>, lo: int) -> bool {
+    &&& forall|x: int| 1 <= x <= ds.size && #[trigger] seen[x] ==> oi[x] >= lo
+    &&& forall|x: int, y: int| #![trigger seen[x], seen[y]]
+            1 <= x <= ds.size && 1 <= y <= ds.size && seen[x] && seen[y] && oi[x] == oi[y] ==> co_orbit(ds, i, x, y)
+}
+
+#[verifier::opaque]
+pub open spec fn sep_ok(ds: &SimpleDSet, j: int, oi: Seq<usize>) -> bool {
+    forall|x: int, y: int| #![trigger oi[x], oi[y]]
+        1 <= x <= ds.size && 1 <= y <= ds.size && oi[x] == oi[y] ==> co_orbit(ds, j, x, y)
+}
+
+// every orbit index used for one index pair is smaller than every one used for a later pair
+#[verifier::opaque]
+pub open spec fn below(a: Seq<usize>, b: Seq<usize>, size: int) -> bool {
+    forall|x: int, y: int| #![trigger a[x], b[y]] 1 <= x <= size && 1 <= y <= size ==> a[x] < b[y]
+}
+
+// the finished passes j < i: unaffected by pass i
+pub open spec fn orbpass_ok(ds: &SimpleDSet, oi: Seq<Vec<usize>>, i: int, start: int) -> bool {
+    &&& forall|j: int| 0 <= j < i ==> sep_ok(ds, j, (#[trigger] oi[j])@)
+    &&& forall|j: int| 0 <= j < i ==> orb_ok(ds, j, (#[trigger] oi[j])@, start)
+    &&& forall|j: int, j2: int| 0 <= j < j2 < i ==> below((#[trigger] oi[j])@, (#[trigger] oi[j2])@, ds.size as int)
+}
+
+proof fn lemma_orbpass_frame(ds: &SimpleDSet, oi0: Seq<Vec<usize>>, oi: Seq<Vec<usize>>, i: int, start: int)
+    requires orbpass_ok(ds, oi0, i, start), oi0.len() == oi.len(), i <= oi.len(),
+        forall|j: int| 0 <= j < oi.len() && j != i ==> #[trigger] oi[j] == oi0[j],
+    ensures orbpass_ok(ds, oi, i, start)
+{
+    assert forall|j: int| 0 <= j < i implies sep_ok(ds, j, (#[trigger] oi[j])@) by { assert(oi[j] == oi0[j]); assert(sep_ok(ds, j, oi0[j]@)); }
+    assert forall|j: int| 0 <= j < i implies orb_ok(ds, j, (#[trigger] oi[j])@, start) by { assert(oi[j] == oi0[j]); assert(orb_ok(ds, j, oi0[j]@, start)); }
+    assert forall|j: int, j2: int| 0 <= j < j2 < i implies below((#[trigger] oi[j])@, (#[trigger] oi[j2])@, ds.size as int) by {
+        assert(oi[j] == oi0[j]); assert(oi[j2] == oi0[j2]);
+        assert(below(oi0[j]@, oi0[j2]@, ds.size as int));
+    }
+}
+
+proof fn lemma_sep_init(ds: &SimpleDSet, i: int, seen: Seq<bool>, oi: Seq<usize>, lo: int)
+    requires forall|x: int| 0 <= x < seen.len() ==> !seen[x], seen.len() == ds.size + 1
+    ensures sep_seen(ds, i, seen, oi, lo)
+{
+    reveal(sep_seen);
+}
+
+// one more orbit (the one of d, numbered nr == n) has been marked
+proof fn lemma_sep_extend(ds: &SimpleDSet, i: int, d: int, seen0: Seq<bool>, oi0: Seq<usize>, seen: Seq<bool>, oi: Seq<usize>,
+                          nr: usize, lo: int)
+    requires 1 <= d <= ds.size, lo <= nr,
+        seen0.len() == ds.size + 1, oi0.len() == ds.size + 1,
+        sep_seen(ds, i, seen0, oi0, lo), idx_ok(ds, i, seen0, oi0, nr as int),
+        members(ds, i, d, seen0, seen), final_inv(ds, i, d, seen0, oi0, seen, oi, nr),
+    ensures sep_seen(ds, i, seen, oi, lo)
+{
+    reveal(sep_seen);
+    reveal(members);
+    assert forall|x: int| 1 <= x <= ds.size && #[trigger] seen[x] implies oi[x] >= lo by {
+        if seen0[x] { assert(oi[x] == oi0[x]); }
+    }
+    assert forall|x: int, y: int| #![trigger seen[x], seen[y]]
+            1 <= x <= ds.size && 1 <= y <= ds.size && seen[x] && seen[y] && oi[x] == oi[y] implies co_orbit(ds, i, x, y) by {
+        if seen0[x] && seen0[y] {
+            assert(oi[x] == oi0[x] && oi[y] == oi0[y]);
+        } else if !seen0[x] && !seen0[y] {
+            assert(in_orbit(ds, i, d, x) && in_orbit(ds, i, d, y));
+        } else if seen0[x] {
+            assert(oi[x] == oi0[x] && oi0[x] < nr && oi[y] == nr);
+        } else {
+            assert(oi[y] == oi0[y] && oi0[y] < nr && oi[x] == nr);
+        }
+    }
+}
+
+// end of pass i: every chamber is marked
+proof fn lemma_sep_intro(ds: &SimpleDSet, oi: Seq<Vec<usize>>, i: int, seen: Seq<bool>, lo: int, n: int)
+    requires 0 <= i < oi.len(), lo <= n,
+        sep_seen(ds, i, seen, oi[i]@, lo), forall|x: int| 1 <= x <= ds.size ==> seen[x],
+        orb_ok(ds, i, oi[i]@, n),
+        orbpass_ok(ds, oi, i, lo),
+    ensures orbpass_ok(ds, oi, i + 1, n)
+{
+    reveal(sep_seen);
+    reveal(sep_ok);
+    reveal(below);
+    reveal(orb_ok);
+    assert(sep_ok(ds, i, oi[i]@)) by {
+        assert forall|x: int, y: int| #![trigger oi[i]@[x], oi[i]@[y]]
+            1 <= x <= ds.size && 1 <= y <= ds.size && oi[i]@[x] == oi[i]@[y] implies co_orbit(ds, i, x, y) by {
+            assert(seen[x] && seen[y]);
+        }
+    }
+    assert forall|j: int| 0 <= j < i + 1 implies sep_ok(ds, j, (#[trigger] oi[j])@) by { }
+    assert forall|j: int| 0 <= j < i + 1 implies orb_ok(ds, j, (#[trigger] oi[j])@, n) by {
+        if j < i { assert(orb_ok(ds, j, oi[j]@, lo)); }
+    }
+    assert forall|j: int, j2: int| 0 <= j < j2 < i + 1 implies below((#[trigger] oi[j])@, (#[trigger] oi[j2])@, ds.size as int) by {
+        if j2 == i {
+            assert(orb_ok(ds, j, oi[j]@, lo));
+            assert forall|x: int, y: int| #![trigger oi[j]@[x], oi[i]@[y]] 1 <= x <= ds.size && 1 <= y <= ds.size implies oi[j]@[x] < oi[i]@[y] by {
+                assert(seen[y]);
+            }
+        }
+    }
+}
+
+proof fn lemma_in_orbit_cong(a: &SimpleDSet, b: &SimpleDSet, j: int, d: int, x: int)
+    requires a.op@ == b.op@, a.size == b.size, a.dim == b.dim, in_orbit(a, j, d, x)
+    ensures in_orbit(b, j, d, x)
+{
+    let k = choose|k: nat| x == #[trigger] iter(a, j, d, k) || x == a.t(j, iter(a, j, d, k));
+    lemma_iter_bridge(a, j, d, k);
+    lemma_iter_bridge(b, j, d, k);
+    lemma_iter_cong(a, b, j, d, k);
+    assert(iter(a, j, d, k) == iter(b, j, d, k));
+    assert(a.t(j, iter(a, j, d, k)) == b.t(j, iter(b, j, d, k)));
+}
+
+proof fn lemma_sep_ok_cong(a: &SimpleDSet, b: &SimpleDSet, j: int, oi: Seq<usize>)
+    requires sep_ok(a, j, oi), a.op@ == b.op@, a.size == b.size, a.dim == b.dim
+    ensures sep_ok(b, j, oi)
+{
+    reveal(sep_ok);
+    assert forall|x: int, y: int| #![trigger oi[x], oi[y]]
+        1 <= x <= b.size && 1 <= y <= b.size && oi[x] == oi[y] implies co_orbit(b, j, x, y) by {
+        assert(co_orbit(a, j, x, y));
+        let d = choose|d: int| 1 <= d <= a.size && #[trigger] in_orbit(a, j, d, x) && in_orbit(a, j, d, y);
+        lemma_in_orbit_cong(a, b, j, d, x);
+        lemma_in_orbit_cong(a, b, j, d, y);
+    }
+}
+
+// what separation is used for: a function that is constant along op_j and op_{j+1} takes one value per orbit index
+proof fn lemma_in_orbit_const(ds: &SimpleDSet, j: int, d: int, x: int, f: spec_fn(int) -> int)
+    requires ds.inv(), 0 <= j < ds.dim, 1 <= d <= ds.size, in_orbit(ds, j, d, x),
+        forall|z: int| 1 <= z <= ds.size ==> f(ds.t(j, z)) == #[trigger] f(z) && f(ds.t(j + 1, z)) == f(z),
+    ensures f(x) == f(d)
+{
+    let k = choose|k: nat| x == #[trigger] iter(ds, j, d, k) || x == ds.t(j, iter(ds, j, d, k));
+    lemma_iter_const(ds, j, d, k, f);
+    lemma_iter_range(ds, j, d, k);
+}
+
+proof fn lemma_iter_const(ds: &SimpleDSet, j: int, d: int, k: nat, f: spec_fn(int) -> int)
+    requires ds.inv(), 0 <= j < ds.dim, 1 <= d <= ds.size,
+        forall|z: int| 1 <= z <= ds.size ==> f(ds.t(j, z)) == #[trigger] f(z) && f(ds.t(j + 1, z)) == f(z),
+    ensures f(iter(ds, j, d, k)) == f(d)
+    decreases k
+{
+    if k > 0 {
+        lemma_iter_const(ds, j, d, (k - 1) as nat, f);
+        lemma_iter_range(ds, j, d, (k - 1) as nat);
+        let y = iter(ds, j, d, (k - 1) as nat);
+        assert(1 <= ds.t(j, y) <= ds.size);
+    }
+}
+
+pub proof fn lemma_same_index_const(ds: &SimpleDSet, j: int, oi: Seq<usize>, x: int, y: int, f: spec_fn(int) -> int)
+    requires ds.inv(), 0 <= j < ds.dim, sep_ok(ds, j, oi), 1 <= x <= ds.size, 1 <= y <= ds.size, oi[x] == oi[y],
+        forall|z: int| 1 <= z <= ds.size ==> f(ds.t(j, z)) == #[trigger] f(z) && f(ds.t(j + 1, z)) == f(z),
+    ensures f(x) == f(y)
+{
+    reveal(sep_ok);
+    assert(co_orbit(ds, j, x, y));
+    let d = choose|d: int| 1 <= d <= ds.size && #[trigger] in_orbit(ds, j, d, x) && in_orbit(ds, j, d, y);
+    lemma_in_orbit_const(ds, j, d, x, f);
+    lemma_in_orbit_const(ds, j, d, y, f);
+}
+
 //@ begin src/dsyms.rs :: - :: fn collect_orbits | props=C01,C02,C04
 //@ rw R16 /-> \(Vec<usize>, Vec<bool>, Vec<Vec<usize>>\)/-> (res: (Vec<usize>, Vec<bool>, Vec<Vec<usize>>))/
 //@ rw R12 /let mut orbit_rs = vec!\[\];/let mut orbit_rs: Vec<usize> = vec![];/
@@ -1245,6 +1499,9 @@ pub fn collect_orbits(ds: &SimpleDSet)
         forall|k: int| 0 <= k < res.0@.len() ==> #[trigger] res.0@[k] >= 1,
         // C02: for every chamber, the recorded r is the least return time of op_{i+1} op_i, i.e. the orbit length
         forall|i: int| 0 <= i < ds.dim ==> ret_all(ds, i, (#[trigger] res.2@[i])@, res.0@),
+        // C02/C05: orbit indices separate orbits, and the index ranges of different index pairs are disjoint (ascending)
+        forall|i: int| 0 <= i < ds.dim ==> sep_ok(ds, i, (#[trigger] res.2@[i])@),
+        forall|i: int, i2: int| 0 <= i < i2 < ds.dim ==> below((#[trigger] res.2@[i])@, (#[trigger] res.2@[i2])@, ds.size as int),
 {
     let mut orbit_rs: Vec<usize> = vec![];
     let mut orbit_is_chain: Vec<bool> = vec![];
@@ -1261,9 +1518,14 @@ pub fn collect_orbits(ds: &SimpleDSet)
             forall|j: int| 0 <= j < i ==> orb_ok(ds, j, (#[trigger] orbit_index@[j])@, orbit_rs@.len() as int),
             forall|j: int| 0 <= j < i ==> ret_all(ds, j, (#[trigger] orbit_index@[j])@, orbit_rs@),
             forall|k: int| 0 <= k < orbit_rs@.len() ==> #[trigger] orbit_rs@[k] >= 1,
+            orbpass_ok(ds, orbit_index@, i as int, orbit_rs@.len() as int),
     {
         seen.fill(false);
-        proof { lemma_ret_seen_init(ds, i as int, seen@, orbit_index@[i as int]@, orbit_rs@); }
+        let ghost start = orbit_rs@.len() as int;
+        proof {
+            lemma_ret_seen_init(ds, i as int, seen@, orbit_index@[i as int]@, orbit_rs@);
+            lemma_sep_init(ds, i as int, seen@, orbit_index@[i as int]@, start);
+        }
 
         for d in 1..(ds.size()) + 1
             invariant
@@ -1279,6 +1541,9 @@ pub fn collect_orbits(ds: &SimpleDSet)
                 forall|x: int| 1 <= x < d ==> seen@[x],
                 forall|j: int| 0 <= j < i ==> ret_all(ds, j, (#[trigger] orbit_index@[j])@, orbit_rs@),
                 ret_seen(ds, i as int, seen@, orbit_index@[i as int]@, orbit_rs@),
+                start <= orbit_rs@.len(),
+                sep_seen(ds, i as int, seen@, orbit_index@[i as int]@, start),
+                orbpass_ok(ds, orbit_index@, i as int, start),
         {
             if !seen[d] {
                 let orbit_nr = orbit_rs.len();
@@ -1338,6 +1603,8 @@ pub fn collect_orbits(ds: &SimpleDSet)
                 }
 
                 proof {
+                    lemma_sep_extend(ds, i as int, d as int, seen0, oi0[i as int]@, seen@, orbit_index@[i as int]@, orbit_nr, start);
+                    lemma_orbpass_frame(ds, oi0, orbit_index@, i as int, start);
                     lemma_final_to_outer(ds, i as int, d as int, seen0, oi0[i as int]@, seen@, orbit_index@[i as int]@, orbit_nr, orbit_rs@.len() as int);
                     assert forall|j: int| 0 <= j < i implies orb_ok(ds, j, (#[trigger] orbit_index@[j])@, orbit_rs@.len() as int + 1) by {
                         assert(orbit_index@[j] == oi0[j]);
@@ -1356,6 +1623,7 @@ pub fn collect_orbits(ds: &SimpleDSet)
         proof {
             lemma_orb_ok_intro(ds, i as int, seen@, orbit_index@[i as int]@, orbit_rs@.len() as int);
             lemma_ret_all_intro(ds, i as int, seen@, orbit_index@[i as int]@, orbit_rs@);
+            lemma_sep_intro(ds, orbit_index@, i as int, seen@, start, orbit_rs@.len() as int);
         }
     }
 
@@ -1388,6 +1656,9 @@ pub open spec fn sym_ok(dset: &SimpleDSet, oi: Seq<Vec<usize>>, rs: Seq<usize>, 
     &&& forall|i: int| 0 <= i < dset.dim ==> orb_ok(dset, i, (#[trigger] oi[i])@, rs.len() as int)
     // orbit_rs[orbit_index[i][x]] is the length of the (i,i+1)-orbit cycle through x, for every chamber x
     &&& forall|i: int| 0 <= i < dset.dim ==> ret_all(dset, i, (#[trigger] oi[i])@, rs)
+    // orbit indices separate orbits; the indices of different index pairs are disjoint
+    &&& forall|i: int| 0 <= i < dset.dim ==> sep_ok(dset, i, (#[trigger] oi[i])@)
+    &&& forall|i: int, i2: int| 0 <= i < i2 < dset.dim ==> below((#[trigger] oi[i])@, (#[trigger] oi[i2])@, dset.size as int)
     &&& vs.len() == rs.len()
     &&& forall|k: int| 0 <= k < rs.len() ==> #[trigger] rs[k] >= 1
     // m = r * v is representable
@@ -1542,6 +1813,9 @@ impl PartialDSym {
             assert forall|i: int| 0 <= i < __c.dim implies ret_all(&__c, i, (#[trigger] orbit_index@[i])@, orbit_rs@) by {
                 lemma_ret_all_cong(dset, &__c, i, orbit_index@[i]@, orbit_rs@);
             }
+            assert forall|i: int| 0 <= i < __c.dim implies sep_ok(&__c, i, (#[trigger] orbit_index@[i])@) by {
+                lemma_sep_ok_cong(dset, &__c, i, orbit_index@[i]@);
+            }
             assert forall|i: int, d: int| 0 <= i <= __c.dim && 1 <= d <= __c.size implies ({
                 let e = #[trigger] __c.t(i, d);
                 1 <= e <= __c.size && __c.t(i, e) == d
@@ -1687,6 +1961,26 @@ impl PartialDSym {
     //@ end
 }
 
+proof fn lemma_sym_m_orbit(dset: &SimpleDSet, oi: Seq<Vec<usize>>, rs: Seq<usize>, vs: Seq<usize>)
+    requires sym_ok(dset, oi, rs, vs)
+    ensures
+        forall|i: int, d: int| 0 <= i < dset.dim && (#[trigger] dset.sop(i, d)).is_some() ==>
+            spec_m(dset, oi, rs, vs, i, i + 1, dset.sop(i, d).unwrap() as int) == spec_m(dset, oi, rs, vs, i, i + 1, d),
+        forall|i: int, d: int| 0 <= i < dset.dim && (#[trigger] dset.sop(i + 1, d)).is_some() ==>
+            spec_m(dset, oi, rs, vs, i, i + 1, dset.sop(i + 1, d).unwrap() as int) == spec_m(dset, oi, rs, vs, i, i + 1, d),
+{
+    dset.lemma_wf();
+    dset.lemma_inv_tbl();
+    assert forall|i: int, d: int| 0 <= i < dset.dim && (#[trigger] dset.sop(i, d)).is_some() implies
+            spec_m(dset, oi, rs, vs, i, i + 1, dset.sop(i, d).unwrap() as int) == spec_m(dset, oi, rs, vs, i, i + 1, d) by {
+        lemma_rvm_adjacent_constant_on_orbit(dset, oi, rs, vs, i, d);
+    }
+    assert forall|i: int, d: int| 0 <= i < dset.dim && (#[trigger] dset.sop(i + 1, d)).is_some() implies
+            spec_m(dset, oi, rs, vs, i, i + 1, dset.sop(i + 1, d).unwrap() as int) == spec_m(dset, oi, rs, vs, i, i + 1, d) by {
+        lemma_rvm_adjacent_constant_on_orbit(dset, oi, rs, vs, i, d);
+    }
+}
+
 proof fn lemma_sym_wf(dset: &SimpleDSet)
     requires dset.inv()
     ensures dset.wf()
@@ -1702,6 +1996,7 @@ impl DSet for PartialDSym {
     }
 
     proof fn lemma_wf(&self) { self.dset.lemma_wf(); }
+    proof fn lemma_m_orbit(&self) { lemma_sym_m_orbit(&self.dset, self.orbit_index@, self.orbit_rs@, self.orbit_vs@); }
 
     //@ begin src/dsyms.rs :: impl DSet for PartialDSym :: fn size | props=C01,C02,C04
     fn size(&self) -> usize
@@ -1990,6 +2285,7 @@ impl DSet for SimpleDSym {
     }
 
     proof fn lemma_wf(&self) { self.dset.lemma_wf(); }
+    proof fn lemma_m_orbit(&self) { lemma_sym_m_orbit(&self.dset, self.orbit_index@, self.orbit_rs@, self.orbit_vs@); }
 
     //@ begin src/dsyms.rs :: impl DSet for SimpleDSym :: fn size | props=C01,C02,C04
     fn size(&self) -> usize
@@ -2479,30 +2775,186 @@ pub fn build_set<F>(size: usize, dim: usize, op: F) -> (dset: PartialDSet)
 }
 //@ end
 
+// ---- degrees written by build_sym_using_ms ----
+// The closure `m` is visible to the verifier only as the relation m.ensures((i, d), result).  The postcondition is therefore
+// stated for EVERY spec function mf that the closure's results obey and that is constant along the operations i and i+1
+// (a degree is a property of the (i,i+1)-orbit): wherever mf(i, x) is Some(mv), the v-entry of the orbit of x is mv / r.
+pub open spec fn m_obeys<F: Fn(usize, usize) -> Option<usize>>(m: &F, mf: spec_fn(int, int) -> Option<usize>, dim: int, size: int) -> bool {
+    forall|i: usize, d: usize, r: Option<usize>| i < dim && 1 <= d <= size && #[trigger] m.ensures((i, d), r) ==> r == mf(i as int, d as int)
+}
+pub open spec fn m_class(ds: &SimpleDSet, mf: spec_fn(int, int) -> Option<usize>) -> bool {
+    forall|i: int, x: int| 0 <= i < ds.dim && 1 <= x <= ds.size ==>
+        mf(i, ds.t(i, x)) == #[trigger] mf(i, x) && mf(i, ds.t(i + 1, x)) == mf(i, x)
+}
+pub open spec fn m_hyp<F: Fn(usize, usize) -> Option<usize>>(m: &F, ds: &SimpleDSet, mf: spec_fn(int, int) -> Option<usize>) -> bool {
+    m_obeys(m, mf, ds.dim as int, ds.size as int) && m_class(ds, mf)
+}
+// div: the closure prescribes m and the entry is m / r (build_sym_using_ms); !div: it prescribes v itself (build_sym_using_vs)
+pub open spec fn deg_val(div: bool, mv: usize, r: usize) -> int { if div { mv as int / r as int } else { mv as int } }
+pub open spec fn deg_at(oi: Seq<Vec<usize>>, rs: Seq<usize>, vs: Seq<usize>, mf: spec_fn(int, int) -> Option<usize>, div: bool, i: int, x: int) -> bool {
+    mf(i, x).is_some() ==> vs[oix(oi, i, x)] == deg_val(div, mf(i, x).unwrap(), rs[oix(oi, i, x)])
+}
+pub open spec fn degs_upto(size: int, oi: Seq<Vec<usize>>, rs: Seq<usize>, vs: Seq<usize>, mf: spec_fn(int, int) -> Option<usize>, div: bool, upto: int) -> bool {
+    forall|j: int, x: int| 0 <= j < upto && 1 <= x <= size ==> #[trigger] deg_at(oi, rs, vs, mf, div, j, x)
+}
+// x shares its (i,i+1)-orbit index with one of the first `upto` listed representatives
+pub open spec fn idx_listed(oi: Seq<Vec<usize>>, i: int, reps: Seq<usize>, upto: int, x: int) -> bool {
+    exists|k: int| 0 <= k < upto && k < reps.len() && oix(oi, i, (#[trigger] reps[k]) as int) == oix(oi, i, x)
+}
+pub open spec fn degs_listed(size: int, oi: Seq<Vec<usize>>, rs: Seq<usize>, vs: Seq<usize>, mf: spec_fn(int, int) -> Option<usize>, div: bool,
+                             i: int, reps: Seq<usize>, k: int) -> bool {
+    forall|x: int| 1 <= x <= size && idx_listed(oi, i, reps, k, x) ==> #[trigger] deg_at(oi, rs, vs, mf, div, i, x)
+}
+pub open spec fn all_listed(size: int, oi: Seq<Vec<usize>>, i: int, reps: Seq<usize>) -> bool {
+    forall|x: int| 1 <= x <= size ==> #[trigger] idx_listed(oi, i, reps, reps.len() as int, x)
+}
+
+// orbit_reps_2d lists a representative of every orbit; in the symbol's own bookkeeping: of every orbit index
+proof fn lemma_reps_cover_index(dsym: &PartialDSym, i: int, reps: Seq<usize>)
+    requires dsym.inv(), 0 <= i < dsym.dset.dim,
+        forall|x: int| 1 <= x <= dsym.dset.size ==> #[trigger] has_rep(dsym, i, i + 1, reps, x),
+        forall|k: int| 0 <= k < reps.len() ==> 1 <= #[trigger] reps[k] <= dsym.dset.size,
+    ensures all_listed(dsym.dset.size as int, dsym.orbit_index@, i, reps)
+{
+    let oi = dsym.orbit_index@;
+    let f = |z: int| oix(oi, i, z);
+    dsym.dset.lemma_inv_tbl();
+    assert(orbit_fn(dsym, i, i + 1, f)) by {
+        assert forall|x: int| 1 <= x <= dsym.ssize() implies
+            ((#[trigger] dsym.sop(i, x)).is_some() ==> f(dsym.sop(i, x).unwrap() as int) == f(x))
+            && ((#[trigger] dsym.sop(i + 1, x)).is_some() ==> f(dsym.sop(i + 1, x).unwrap() as int) == f(x)) by {
+            lemma_oix_bound(&dsym.dset, oi, dsym.orbit_rs@, dsym.orbit_vs@, i, x);
+            assert(1 <= dsym.dset.t(i, x) <= dsym.dset.size);
+            assert(1 <= dsym.dset.t(i + 1, x) <= dsym.dset.size);
+        }
+    }
+    assert forall|x: int| 1 <= x <= dsym.dset.size implies #[trigger] idx_listed(oi, i, reps, reps.len() as int, x) by {
+        assert(has_rep(dsym, i, i + 1, reps, x));
+        let k = choose|k: int| 0 <= k < reps.len() && #[trigger] same_ij(dsym, i, i + 1, reps[k] as int, x);
+        assert(f(reps[k] as int) == f(x));
+    }
+}
+
+pub open spec fn opt_code(o: Option<usize>) -> int { match o { Some(v) => v as int + 1, None => 0 } }
+
+// the step of the inner loop of build_sym_using_ms: the v-entry of the orbit of d = reps[k] has been written (res == Some) or left
+// alone because the closure returned None (res == None)
+proof fn lemma_deg_step<F: Fn(usize, usize) -> Option<usize>>(m: &F, ds: &SimpleDSet, oi: Seq<Vec<usize>>, rs: Seq<usize>, vs0: Seq<usize>, vs1: Seq<usize>,
+                        i: usize, reps: Seq<usize>, k: int, d: usize, res: Option<usize>, div: bool)
+    requires sym_ok(ds, oi, rs, vs0), i < ds.dim, 0 <= k < reps.len(), reps[k] == d, 1 <= d <= ds.size,
+        m.ensures((i, d), res),
+        res.is_some() ==> vs1 == vs0.update(oix(oi, i as int, d as int), deg_val(div, res.unwrap(), rs[oix(oi, i as int, d as int)]) as usize),
+        res.is_some() ==> deg_val(div, res.unwrap(), rs[oix(oi, i as int, d as int)]) <= usize::MAX,
+        res.is_none() ==> vs1 == vs0,
+        forall|mf: spec_fn(int, int) -> Option<usize>| #[trigger] m_hyp(m, ds, mf) ==>
+            degs_upto(ds.size as int, oi, rs, vs0, mf, div, i as int) && degs_listed(ds.size as int, oi, rs, vs0, mf, div, i as int, reps, k),
+    ensures
+        forall|mf: spec_fn(int, int) -> Option<usize>| #[trigger] m_hyp(m, ds, mf) ==>
+            degs_upto(ds.size as int, oi, rs, vs1, mf, div, i as int) && degs_listed(ds.size as int, oi, rs, vs1, mf, div, i as int, reps, k + 1),
+{
+    let kk = oix(oi, i as int, d as int);
+    lemma_oix_bound(ds, oi, rs, vs0, i as int, d as int);
+    assert forall|mf: spec_fn(int, int) -> Option<usize>| #[trigger] m_hyp(m, ds, mf) implies
+            degs_upto(ds.size as int, oi, rs, vs1, mf, div, i as int) && degs_listed(ds.size as int, oi, rs, vs1, mf, div, i as int, reps, k + 1) by {
+        assert(degs_upto(ds.size as int, oi, rs, vs0, mf, div, i as int));
+        assert(degs_listed(ds.size as int, oi, rs, vs0, mf, div, i as int, reps, k));
+        assert(mf(i as int, d as int) == res);
+        assert forall|j: int, x: int| 0 <= j < i && 1 <= x <= ds.size implies #[trigger] deg_at(oi, rs, vs1, mf, div, j, x) by {
+            assert(deg_at(oi, rs, vs0, mf, div, j, x));
+            lemma_oix_bound(ds, oi, rs, vs0, j, x);
+            assert(below(oi[j]@, oi[i as int]@, ds.size as int));
+            reveal(below);
+            assert(oi[j]@[x] < oi[i as int]@[d as int]);
+        }
+        assert forall|x: int| 1 <= x <= ds.size && idx_listed(oi, i as int, reps, k + 1, x) implies #[trigger] deg_at(oi, rs, vs1, mf, div, i as int, x) by {
+            lemma_oix_bound(ds, oi, rs, vs0, i as int, x);
+            if oix(oi, i as int, x) == kk {
+                let f = |z: int| opt_code(mf(i as int, z));
+                assert(sep_ok(ds, i as int, oi[i as int]@));
+                lemma_same_index_const(ds, i as int, oi[i as int]@, x, d as int, f);
+                assert(opt_code(mf(i as int, x)) == opt_code(mf(i as int, d as int)));
+                assert(mf(i as int, x) == mf(i as int, d as int));
+            } else {
+                let k2 = choose|k2: int| 0 <= k2 < k + 1 && k2 < reps.len() && oix(oi, i as int, (#[trigger] reps[k2]) as int) == oix(oi, i as int, x);
+                assert(k2 != k);
+                assert(idx_listed(oi, i as int, reps, k, x));
+                assert(deg_at(oi, rs, vs0, mf, div, i as int, x));
+            }
+        }
+    }
+}
+
+// all representatives processed: the degrees of index i are complete
+proof fn lemma_deg_close<F: Fn(usize, usize) -> Option<usize>>(m: &F, ds: &SimpleDSet, oi: Seq<Vec<usize>>, rs: Seq<usize>, vs: Seq<usize>, i: int, reps: Seq<usize>, div: bool)
+    requires all_listed(ds.size as int, oi, i, reps),
+        forall|mf: spec_fn(int, int) -> Option<usize>| #[trigger] m_hyp(m, ds, mf) ==>
+            degs_upto(ds.size as int, oi, rs, vs, mf, div, i) && degs_listed(ds.size as int, oi, rs, vs, mf, div, i, reps, reps.len() as int),
+    ensures
+        forall|mf: spec_fn(int, int) -> Option<usize>| #[trigger] m_hyp(m, ds, mf) ==> degs_upto(ds.size as int, oi, rs, vs, mf, div, i + 1),
+{
+    assert forall|mf: spec_fn(int, int) -> Option<usize>| #[trigger] m_hyp(m, ds, mf) implies degs_upto(ds.size as int, oi, rs, vs, mf, div, i + 1) by {
+        assert(degs_upto(ds.size as int, oi, rs, vs, mf, div, i));
+        assert(degs_listed(ds.size as int, oi, rs, vs, mf, div, i, reps, reps.len() as int));
+        assert forall|j: int, x: int| 0 <= j < i + 1 && 1 <= x <= ds.size implies #[trigger] deg_at(oi, rs, vs, mf, div, j, x) by {
+            if j == i { assert(idx_listed(oi, i, reps, reps.len() as int, x)); } else { assert(deg_at(oi, rs, vs, mf, div, j, x)); }
+        }
+    }
+}
+
 //@ begin src/derived.rs :: - :: fn build_sym_using_ms | props=C05
 //@ rw R16 /-> PartialDSym$/-> (res: PartialDSym)/
 //@ rw R15 /let mut dsym: PartialDSym = dset\.into\(\);/let mut dsym: PartialDSym = PartialDSym::from_partial_dset(dset);/
 //@ rw R14 /^([ \t]*)for d in (dsym\.orbit_reps_2d\(i, i \+ 1\))$/\1let __reps = \2;\n\1for d in it: __reps/
+//@ rw R11 /dsym\.orbit_reps_2d\(i, i \+ 1\)/orbit_reps_2d(&dsym, i, i + 1)/
 //@ rw R14 /^([ \t]*)for i in 0\.\.(dsym\.dim\(\))$/\1let __n = \2;\n\1for i in 0..__n/
+#[verifier::spinoff_prover]
 pub fn build_sym_using_ms<F>(dset: PartialDSet, m: F) -> (res: PartialDSym)
     where F: Fn(usize, usize) -> Option<usize>
     requires dset.inv(), dset.complete(),     // `dset.into()` asserts completeness
         forall|i: usize, d: usize| i < dset.dim && 1 <= d <= dset.size ==> m.requires((i, d)),
     // adding degrees keeps the operations: the result is a well-formed symbol on exactly the given table
     ensures res.inv(), res.dset.size == dset.size, res.dset.dim == dset.dim, res.dset.op@ == dset.op@,
+        // C05 / C04 degrees: for every function mf describing the closure's results that is constant on (i,i+1)-orbits,
+        // the v-entry of the orbit of x is mf(i, x) / r(i, i+1, x)   (so m = r * v is the prescribed degree whenever r divides it)
+        forall|mf: spec_fn(int, int) -> Option<usize>| #[trigger] m_hyp(&m, &res.dset, mf) ==>
+            degs_upto(res.dset.size as int, res.orbit_index@, res.orbit_rs@, res.orbit_vs@, mf, true, res.dset.dim as int),
 {
+    let ghost mc = m;
     let mut dsym: PartialDSym = PartialDSym::from_partial_dset(dset);
+    let ghost ds0 = dsym.dset;
+    let ghost oi0 = dsym.orbit_index@;
+    let ghost rs0 = dsym.orbit_rs@;
     let __n = dsym.dim();
     for i in 0..__n
         invariant dsym.inv(), dsym.dset.size == dset.size, dsym.dset.dim == dset.dim, dsym.dset.op@ == dset.op@, __n == dset.dim,
             forall|i: usize, d: usize| i < dset.dim && 1 <= d <= dset.size ==> m.requires((i, d)),
+            mc == m, dsym.dset == ds0, dsym.orbit_index@ == oi0, dsym.orbit_rs@ == rs0,
+            forall|mf: spec_fn(int, int) -> Option<usize>| #[trigger] m_hyp(&mc, &ds0, mf) ==>
+                degs_upto(ds0.size as int, oi0, rs0, dsym.orbit_vs@, mf, true, i as int),
     {
-        let __reps = dsym.orbit_reps_2d(i, i + 1);
+        let __reps = orbit_reps_2d(&dsym, i, i + 1);
+        let ghost reps0 = __reps@;
+        proof {
+            lemma_reps_cover_index(&dsym, i as int, reps0);
+            assert forall|mf: spec_fn(int, int) -> Option<usize>| #[trigger] m_hyp(&mc, &ds0, mf) implies
+                degs_listed(ds0.size as int, oi0, rs0, dsym.orbit_vs@, mf, true, i as int, reps0, 0) by { }
+            if reps0.len() == 0 { lemma_deg_close(&mc, &ds0, oi0, rs0, dsym.orbit_vs@, i as int, reps0, true); }
+        }
         for d in it: __reps
             invariant dsym.inv(), dsym.dset.size == dset.size, dsym.dset.dim == dset.dim, dsym.dset.op@ == dset.op@, i < dset.dim,
                 forall|i: usize, d: usize| i < dset.dim && 1 <= d <= dset.size ==> m.requires((i, d)),
                 forall|k: int| 0 <= k < it.seq().len() ==> 1 <= #[trigger] it.seq()[k] <= dset.size,
+                mc == m, dsym.dset == ds0, dsym.orbit_index@ == oi0, dsym.orbit_rs@ == rs0, it.seq() == reps0,
+                all_listed(ds0.size as int, oi0, i as int, reps0),
+                forall|mf: spec_fn(int, int) -> Option<usize>| #[trigger] m_hyp(&mc, &ds0, mf) ==>
+                    degs_upto(ds0.size as int, oi0, rs0, dsym.orbit_vs@, mf, true, i as int)
+                    && degs_listed(ds0.size as int, oi0, rs0, dsym.orbit_vs@, mf, true, i as int, reps0, it.index() as int),
+                it.index() == it.seq().len() ==> (forall|mf: spec_fn(int, int) -> Option<usize>| #[trigger] m_hyp(&mc, &ds0, mf) ==>
+                    degs_upto(ds0.size as int, oi0, rs0, dsym.orbit_vs@, mf, true, i + 1)),
         {
+            let ghost k = it.index() as int;
+            let ghost vs_b = dsym.orbit_vs@;
+            let ghost mut res_m: Option<Option<usize>> = None;
             proof {
                 assert(1 <= it.seq()[it.index() as int] <= dset.size);
                 lemma_oix_bound(&dsym.dset, dsym.orbit_index@, dsym.orbit_rs@, dsym.orbit_vs@, i as int, d as int);
@@ -2511,7 +2963,18 @@ pub fn build_sym_using_ms<F>(dset: PartialDSet, m: F) -> (res: PartialDSym)
                 if let Some(m) = m(i, d) {
                     proof { assert(r * (m / r) <= m) by(nonlinear_arith) requires r >= 1, m >= 0; }
                     dsym.set_v(i, d, m / r);
+                    proof {
+                        res_m = Some(Some(m));
+                        lemma_deg_step(&mc, &ds0, oi0, rs0, vs_b, dsym.orbit_vs@, i, reps0, k, d, Some(m), true);
+                    }
                 }
+            }
+            proof {
+                if res_m.is_none() {
+                    assert(mc.ensures((i, d), None));
+                    lemma_deg_step(&mc, &ds0, oi0, rs0, vs_b, dsym.orbit_vs@, i, reps0, k, d, None, true);
+                }
+                if k + 1 == reps0.len() { lemma_deg_close(&mc, &ds0, oi0, rs0, dsym.orbit_vs@, i as int, reps0, true); }
             }
         }
     }
@@ -2617,6 +3080,19 @@ pub open spec fn covers<T: DSet>(c: &PartialDSym, ds: &T, n: int) -> bool {
         }
 }
 
+// C05 "preserves every degree": the degree m(i,i+1) of a chamber d of the cover is r * (mb / r), where r is the length of the
+// (i,i+1)-orbit of d IN THE COVER and mb the degree of the chamber below d in the base -- hence equal to mb whenever r divides mb
+// (which it does for the covers built from coset tables of the fundamental group, whose relators include (s_i s_j)^m)
+pub open spec fn deg_preserved<T: DSet>(c: &PartialDSym, ds: &T, i: int, d: int) -> bool {
+    let mb = ds.sm(i, i + 1, src_of(d, ds.ssize()));
+    let r = c.orbit_rs@[oix(c.orbit_index@, i, d)];
+    mb.is_some() ==> c.sm(i, i + 1, d) == Some((r * (mb.unwrap() / r)) as usize)
+        && (mb.unwrap() as int % r as int == 0 ==> c.sm(i, i + 1, d) == mb)
+}
+pub open spec fn cover_degrees<T: DSet>(c: &PartialDSym, ds: &T) -> bool {
+    forall|i: int, d: int| 0 <= i < ds.sdim() && 1 <= d <= c.dset.size ==> #[trigger] deg_preserved(c, ds, i, d)
+}
+
 // C05: "has the same number of preimages over every base chamber": the fibre of b is exactly { sz*k + b | 0 <= k < n }
 pub proof fn lemma_fibres(sz: int, n: int, b: int)
     requires sz >= 1, n >= 1, 1 <= b <= sz
@@ -2634,13 +3110,59 @@ pub proof fn lemma_fibres(sz: int, n: int, b: int)
     }
 }
 
+pub open spec fn base_deg<T: DSet>(ds: &T) -> spec_fn(int, int) -> Option<usize> {
+    |i: int, d: int| ds.sm(i, i + 1, src_of(d, ds.ssize()))
+}
+
+// the degree function of cover() is constant on the cover's orbits, because the projection commutes with the operations and base
+// degrees are constant on base orbits (trait law lemma_m_orbit); so build_sym_using_ms's postcondition applies to it
+proof fn lemma_cover_degrees<T: DSet, F: Fn(usize, usize) -> Option<usize>>(ds: &T, c: &PartialDSym, m: &F, n: int)
+    requires ds.wf(), base_complete(ds), n >= 1, covers(c, ds, n),
+        m_obeys(m, base_deg(ds), c.dset.dim as int, c.dset.size as int),
+        forall|mf: spec_fn(int, int) -> Option<usize>| #[trigger] m_hyp(m, &c.dset, mf) ==>
+            degs_upto(c.dset.size as int, c.orbit_index@, c.orbit_rs@, c.orbit_vs@, mf, true, c.dset.dim as int),
+    ensures cover_degrees(c, ds)
+{
+    let mf = base_deg(ds);
+    let sz = ds.ssize();
+    lemma_bop(ds);
+    ds.lemma_m_orbit();
+    assert(m_class(&c.dset, mf)) by {
+        assert forall|i: int, x: int| 0 <= i < c.dset.dim && 1 <= x <= c.dset.size implies
+            mf(i, c.dset.t(i, x)) == #[trigger] mf(i, x) && mf(i, c.dset.t(i + 1, x)) == mf(i, x) by {
+            lemma_sheet(x, sz, n);
+            let b = src_of(x, sz);
+            assert(ds.sop(i, b).is_some() && ds.sop(i + 1, b).is_some());
+            assert(src_of(c.dset.t(i, x), sz) == bop(ds, i, b));
+            assert(src_of(c.dset.t(i + 1, x), sz) == bop(ds, i + 1, b));
+        }
+    }
+    assert(m_hyp(m, &c.dset, mf));
+    assert(degs_upto(c.dset.size as int, c.orbit_index@, c.orbit_rs@, c.orbit_vs@, mf, true, c.dset.dim as int));
+    assert forall|i: int, d: int| 0 <= i < ds.sdim() && 1 <= d <= c.dset.size implies #[trigger] deg_preserved(c, ds, i, d) by {
+        assert(deg_at(c.orbit_index@, c.orbit_rs@, c.orbit_vs@, mf, true, i, d));
+        lemma_oix_bound(&c.dset, c.orbit_index@, c.orbit_rs@, c.orbit_vs@, i, d);
+        let mb = ds.sm(i, i + 1, src_of(d, sz));
+        let kk = oix(c.orbit_index@, i, d);
+        let r = c.orbit_rs@[kk];
+        if mb.is_some() {
+            let mv = mb.unwrap();
+            assert(c.orbit_vs@[kk] == mv as int / r as int);
+            assert(r * (mv / r) <= mv) by(nonlinear_arith) requires r >= 1, mv >= 0;
+            if mv as int % r as int == 0 {
+                lemma_fundamental_div_mod(mv as int, r as int);
+            }
+        }
+    }
+}
+
 //@ begin src/derived.rs :: - :: fn cover | props=C05
 //@ rw R16 /-> PartialDSym$/-> (res: PartialDSym)/
 //@ rw R15 /T: DSym,/T: DSet,/
 //@ rw R14 /^([ \t]*)let src = \|d: usize\| (.*);$/\1let src = |d: usize| -> (c: usize)\n\1{ \2 };/
 //@ rw R14 /^([ \t]*)let op = \|i, d\| (.*)$/\1let op = |i: usize, d: usize| -> (r: Option<usize>)\n\1{\n\1\2/
 //@ rw R14 /^([ \t]*)\.map\(\|di\| sz \* (sheet_map\(.*\)) \+ di\);$/\1.map(|di: usize| -> (e: usize)\n\1{\n\1let k2 = \2;\n\1sz * k2 + di\n\1})\n\1};/
-//@ rw R14 /^([ \t]*)build_sym_using_ms\(\n[ \t]*(build_set\(.*\)),\n[ \t]*\|i, d\| (.*)\n[ \t]*\)$/\1let __set = \2;\n\1let __r = build_sym_using_ms(__set, |i: usize, d: usize| -> (mm: Option<usize>)\n\1{ \3 });\n\1__r/
+//@ rw R14 /^([ \t]*)build_sym_using_ms\(\n[ \t]*(build_set\(.*\)),\n[ \t]*\|i, d\| (.*)\n[ \t]*\)$/\1let __set = \2;\n\1let __m = |i: usize, d: usize| -> (mm: Option<usize>)\n\1{ \3 };\n\1let __r = build_sym_using_ms(__set, __m);\n\1__r/
 #[verifier::spinoff_prover]
 pub fn cover<T, F>(ds: &T, nr_sheets: usize, sheet_map: F) -> (res: PartialDSym)
     where
@@ -2653,7 +3175,7 @@ pub fn cover<T, F>(ds: &T, nr_sheets: usize, sheet_map: F) -> (res: PartialDSym)
         sm_involutive(ds, &sheet_map, nr_sheets as int), sm_injective(ds, &sheet_map, nr_sheets as int),
     // C05: the result is a well-formed complete symbol of nr_sheets * size chambers whose projection d |-> (d-1) % size + 1
     // onto the base commutes with every operation
-    ensures covers(&res, ds, nr_sheets as int)
+    ensures covers(&res, ds, nr_sheets as int), cover_degrees(&res, ds),
 {
     proof { lemma_bop(ds); }
     let sz = ds.size();
@@ -2785,9 +3307,12 @@ pub fn cover<T, F>(ds: &T, nr_sheets: usize, sheet_map: F) -> (res: PartialDSym)
     }
     let ghost set_op = __set.op@;
     let ghost set_dim = __set.dim;
-    let __r = build_sym_using_ms(__set, |i: usize, d: usize| -> (mm: Option<usize>)
+    let __m = |i: usize, d: usize| -> (mm: Option<usize>)
         requires ds.wf(), d >= 1, i < ds.sdim(), ds.sdim() < usize::MAX, ds.ssize() >= 1
-    { ds.m(i, i + 1, (d - 1) % ds.size() + 1) });
+        ensures mm == ds.sm(i as int, i + 1, src_of(d as int, ds.ssize()))
+    { ds.m(i, i + 1, (d - 1) % ds.size() + 1) };
+    let ghost mg = __m;
+    let __r = build_sym_using_ms(__set, __m);
     proof {
         assert forall|i: int, d: int| 0 <= i <= ds.sdim() && 1 <= d <= n * ds.ssize() implies ({
             let e = #[trigger] __r.dset.t(i, d);
@@ -2795,6 +3320,12 @@ pub fn cover<T, F>(ds: &T, nr_sheets: usize, sheet_map: F) -> (res: PartialDSym)
         }) by {
             assert(__r.dset.t(i, d) == tbl(set_op, set_dim as int, i, d));
         }
+        // degrees: the closure computes the base degree of the chamber below
+        assert(m_obeys(&mg, base_deg(ds), __r.dset.dim as int, __r.dset.size as int)) by {
+            assert forall|i: usize, d: usize, r: Option<usize>| i < __r.dset.dim && 1 <= d <= __r.dset.size && #[trigger] mg.ensures((i, d), r)
+                implies r == base_deg(ds)(i as int, d as int) by { }
+        }
+        lemma_cover_degrees(ds, &__r, &mg, n);
     }
     __r
 }
@@ -2834,7 +3365,7 @@ pub fn __is_oriented<T: DSet>(ds: &T) -> (r: bool) requires ds.wf() { unimplemen
 pub fn __partial_orientation<T: DSet>(ds: &T) -> (r: Vec<Sign>) requires ds.wf() ensures r@.len() == ds.ssize() + 1 { unimplemented!() }
 // as_partial_dsym(ds) copies ds through build_set / build_sym_using_vs (the latter not under contract): ASSUMED to be a 1-sheeted cover
 #[verifier::external_body]
-pub fn __as_partial_dsym<T: DSet>(ds: &T) -> (r: PartialDSym) requires ds.wf(), base_complete(ds) ensures covers(&r, ds, 1) { unimplemented!() }
+pub fn __as_partial_dsym<T: DSet>(ds: &T) -> (r: PartialDSym) requires ds.wf(), base_complete(ds) ensures covers(&r, ds, 1), cover_degrees(&r, ds) { unimplemented!() }
 
 proof fn lemma_xor1(k: usize)
     ensures (k ^ 1) ^ 1 == k, k < 2 ==> (k ^ 1) < 2, k ^ 1 != k
@@ -2862,7 +3393,8 @@ pub fn oriented_cover<T: DSet>(ds: &T) -> (res: PartialDSym)
     requires ds.wf(), base_complete(ds),
         2 * ds.ssize() * (ds.sdim() + 1) <= usize::MAX, 2 * ds.ssize() < usize::MAX,
     // C05: either way the result covers the base, with one sheet or two
-    ensures covers(&res, ds, 1) || covers(&res, ds, 2)
+    ensures covers(&res, ds, 1) || covers(&res, ds, 2),
+        cover_degrees(&res, ds),     // in the one-sheeted branch by the assumed contract of as_partial_dsym, in the other one proved
 {
     proof { lemma_bop(ds); }
     if __is_oriented(ds) {
